@@ -279,6 +279,10 @@ def run(prop, tier):
         raise MachineryError("BlocksMC with deviation SeqEndInclusive satisfies every property: vacuous")
     rep.notes["model_deviations_rejected_by_tlc"] = ["SeqEndInclusive"]
     traces = gen(tier, rng)
+    import repotests
+    rd = repotests.record()         # the repository's own datastore tests, recorded (harness/repotrace_plugin.py)
+    traces += rd.get("blocks", [])
+    repotests.note(rep, rd, "blocks")
     verdicts, st = validate_traces("BlocksTrace", "BlocksTrace.cfg", traces)
     rep.add_tv(st, len(traces), sum(len(t["ev"]) for t in traces))
     byid = {t["id"]: t for t in traces}
